@@ -8,6 +8,7 @@ import (
 	"os/exec"
 	"path/filepath"
 	"regexp"
+	"strconv"
 	"strings"
 	"time"
 )
@@ -26,7 +27,18 @@ type BoundedResult struct {
 	Passed     bool   `json:"passed"`
 	Secs       float64 `json:"secs"`
 	Output     string `json:"-"`
+	Findings   []BoundedFinding `json:"classified_findings,omitempty"`
 }
+
+// BoundedFinding: a class of deviations the stand-in recognises (printed as a FINDING line); it is a known finding
+// only if the committed known-findings file lists it.
+type BoundedFinding struct {
+	ID      string `json:"id"`
+	Cases   int    `json:"cases"`
+	Example string `json:"example"`
+}
+
+var reFindingLine = regexp.MustCompile(`(?m)^FINDING id=(\S+) cases=(\d+) example=("(?:[^"\\]|\\.)*")`)
 
 var reBoundedLine = regexp.MustCompile(`BOUNDED name=(\S+) cases=(\d+) nontrivial=(\d+) exhaustive=(\w+) domain="((?:[^"\\]|\\.)*)"`)
 
@@ -73,6 +85,16 @@ func runBounded(repo, prop, tier string, seed int) ([]BoundedResult, error) {
 			} else if err == nil {
 				res.Passed = false
 				res.Output += "\n(no BOUNDED summary line: the test did not run)"
+			}
+			for _, fm := range reFindingLine.FindAllStringSubmatch(buf.String(), -1) {
+				bf := BoundedFinding{ID: fm[1]}
+				fmt.Sscan(fm[2], &bf.Cases)
+				if ex, err := strconv.Unquote(fm[3]); err == nil {
+					bf.Example = ex
+				} else {
+					bf.Example = fm[3]
+				}
+				res.Findings = append(res.Findings, bf)
 			}
 			out = append(out, res)
 		}
